@@ -6,11 +6,11 @@ from symx.chars import SymStr, conc_copy
 from symx.check import Check, collect_functions
 from symx.load import repo, REPO
 
-EXTRA_ARGS = ["x", "x, y", " a , b ", "[1, 2], {3: 4}", "'a,b', c", "f(x, y), z", "a b c", "if x: pass", "$HOME, $(ls)", "(1,\n 2), 3", "lambda x, y: 0", "x=1", "*a, **b",
+EXTRA_ARGS = ["f'{x},{y}', c", 'a, f"{x},", b', "f'({x})', k", "f'{x:,}', f'{a,b}'", "x", "x, y", " a , b ", "[1, 2], {3: 4}", "'a,b', c", "f(x, y), z", "a b c", "if x: pass", "$HOME, $(ls)", "(1,\n 2), 3", "lambda x, y: 0", "x=1", "*a, **b",
               "'''t,\nu''', v", "a[1:2, 3]", "{1, 2}", "x,", "a,, b", "f!(n, m)", "p'/x', `y`", "@(z)", "1 +", "def", "x y z, w v", "\"q,r\"", "for in", "a ; b", "é, ü",
               "x  ,  y", "\tx\t", "a.b.c(d)[e], f", "not, and", "1e5x, 0x, 08", ":=, ->", "{'k': (1, [2, 3])}, (4,)"]
 CONTEXTS = [("", ""), ("y = ", " + 1"), ("print(", ", 2)"), ("if x: ", "; z = 3"), ("[", ", f!(k)]"), ("", "\nq = 1"), ("r = ", "\n$(ls)"), ("a.b.", ".c"), ("-", " if t else u")]
-BLOCKS = ["    a b\n", "    a\n    b c\n", "    if x:\n        y\n    z\n", "    a\n\n    b\n", "    a\n    # c\n    b\n", "  x\n", "\tx\n", "    a\n\n", "    '''s\nt'''\n",
+BLOCKS = ["    s = \'\'\'a\n    b\n    c\'\'\'\n    y = s\n", '    s = """\nfirst\nsecond\n"""\n', "    t = f\'\'\'a\n    b\n    {c}\'\'\' + 1\n", "    a b\n", "    a\n    b c\n", "    if x:\n        y\n    z\n", "    a\n\n    b\n", "    a\n    # c\n    b\n", "  x\n", "\tx\n", "    a\n\n", "    '''s\nt'''\n",
           "    (1,\n2)\n", "    a; b\n", "        deep\n", "    for i in j:\n        k\n\n        l\n    m\n", "    ls -l | grep x\n    echo $HOME\n", "    x = f!(a, b)\n",
           "    é = 'ü'\n", "    if a:\n      b\n    else:\n      c\n"]
 AFTERS = ["", "z = 1\n", "$(ls)\n", "with! q:\n    r\n", "f!(p q)\n", "def g():\n    pass\n"]
@@ -123,7 +123,7 @@ def main():
         sr = sym_at(ex, rest, pos, 1)
         src = SymStr.mk("with! ctx as c:") + sr + ("\n" + after) if isinstance(sr, SymStr) else "with! ctx as c:" + sr + "\n" + after
         return src, lambda m: ("ctx as c", ev(sr, m), after)
-    rests = [" x y z", " a; b", " pass", "  two  spaces ", " ls -l | grep $HOME", " f(a, b)", " é"]
+    rests = [" s = 1", " x y z", " a; b", " pass", "  two  spaces ", " ls -l | grep $HOME", " f(a, b)", " é"]
     c1 = [(r, a, p) for r in rests for a in AFTERS[:3] for p in [None] + list(range(len(r)))]
     if chk.quick:
         c1 = chk.rng.sample(c1, min(len(c1), 80))
